@@ -265,4 +265,410 @@ theorem polyOrient_signs (P : Polygon K) :
     · rename_i h; simpa using h
     · rename_i h; rw [shoelace2_revRing]; simp only [le_iff, not_le] at h; linarith
 
+/-! ## 3. membership: the edge tests as propositions, symmetry, independence of start vertex and orientation -/
+
+theorem orient_swap (a b p : Pt K) : orient b a p = - orient a b p := by simp only [orient]; ring
+
+/-- the orientation determinant as a sum of two products of coordinate differences to `p` -/
+theorem orient_split (a b p : Pt K) :
+    orient a b p = (a.1 - p.1) * (b.2 - p.2) + (b.1 - p.1) * (p.2 - a.2) := by simp only [orient]; ring
+
+theorem onSeg_iff (a b p : Pt K) : onSeg a b p = true ↔
+    orient a b p = 0 ∧ min a.1 b.1 ≤ p.1 ∧ p.1 ≤ max a.1 b.1 ∧ min a.2 b.2 ≤ p.2 ∧ p.2 ≤ max a.2 b.2 := by
+  simp only [onSeg, Bool.and_eq_true, le_iff, minK_eq_min, maxK_eq_max]
+  constructor
+  · rintro ⟨⟨h1, h2⟩, ⟨h3, h4⟩, h5, h6⟩; exact ⟨le_antisymm h1 h2, h3, h4, h5, h6⟩
+  · rintro ⟨h0, h3, h4, h5, h6⟩; exact ⟨⟨h0.le, h0.ge⟩, ⟨h3, h4⟩, h5, h6⟩
+
+theorem onSeg_swap (a b p : Pt K) : onSeg b a p = onSeg a b p := by
+  rw [Bool.eq_iff_iff, onSeg_iff, onSeg_iff, orient_swap, min_comm b.1, max_comm b.1, min_comm b.2, max_comm b.2,
+    neg_eq_zero]
+
+theorem crosses_iff (a b p : Pt K) : crosses a b p = true ↔
+    (a.2 ≤ p.2 ∧ p.2 < b.2 ∧ 0 < orient a b p) ∨ (b.2 ≤ p.2 ∧ p.2 < a.2 ∧ orient a b p < 0) := by
+  unfold crosses above
+  rcases lt_or_ge p.2 a.2 with ha | ha <;> rcases lt_or_ge p.2 b.2 with hb | hb
+  · have ha' : lt p.2 a.2 = true := (lt_iff _ _).mpr ha
+    have hb' : lt p.2 b.2 = true := (lt_iff _ _).mpr hb
+    simp only [ha', hb', bne_self_eq_false, Bool.false_and, Bool.false_eq_true, false_iff]
+    rintro (⟨h, _, _⟩ | ⟨h, _, _⟩) <;> linarith
+  · have ha' : lt p.2 a.2 = true := (lt_iff _ _).mpr ha
+    have hb' : lt p.2 b.2 = false := by rw [← Bool.not_eq_true, lt_iff]; exact not_lt.mpr hb
+    simp only [ha', hb', Bool.false_eq_true, if_false]
+    constructor
+    · intro h; right; exact ⟨hb, ha, by simpa using h⟩
+    · rintro (⟨h, _, _⟩ | ⟨_, _, h⟩)
+      · linarith
+      · simpa using h
+  · have ha' : lt p.2 a.2 = false := by rw [← Bool.not_eq_true, lt_iff]; exact not_lt.mpr ha
+    have hb' : lt p.2 b.2 = true := (lt_iff _ _).mpr hb
+    simp only [ha', hb', if_true]
+    constructor
+    · intro h; left; exact ⟨ha, hb, by simpa using h⟩
+    · rintro (⟨_, _, h⟩ | ⟨h, _, _⟩)
+      · simpa using h
+      · linarith
+  · have ha' : lt p.2 a.2 = false := by rw [← Bool.not_eq_true, lt_iff]; exact not_lt.mpr ha
+    have hb' : lt p.2 b.2 = false := by rw [← Bool.not_eq_true, lt_iff]; exact not_lt.mpr hb
+    simp only [ha', hb', bne_self_eq_false, Bool.false_and, Bool.false_eq_true, false_iff]
+    rintro (⟨_, h, _⟩ | ⟨_, h, _⟩) <;> linarith
+
+/-- the crossing test does not depend on the direction of the edge -/
+theorem crosses_swap (a b p : Pt K) : crosses b a p = crosses a b p := by
+  rw [Bool.eq_iff_iff, crosses_iff, crosses_iff, orient_swap]
+  constructor
+  · rintro (⟨h1, h2, h3⟩ | ⟨h1, h2, h3⟩)
+    · right; exact ⟨h1, h2, by linarith⟩
+    · left; exact ⟨h1, h2, by linarith⟩
+  · rintro (⟨h1, h2, h3⟩ | ⟨h1, h2, h3⟩)
+    · right; exact ⟨h1, h2, by linarith⟩
+    · left; exact ⟨h1, h2, by linarith⟩
+
+theorem ringOdd_rot1 (r : Ring K) (p : Pt K) : ringOdd (rot1 r) p = ringOdd r p :=
+  xorAll_perm ((ringEdges_rot1 r).map _)
+
+theorem onRing_rot1 (r : Ring K) (p : Pt K) : onRing (rot1 r) p = onRing r p :=
+  (ringEdges_rot1 r).any_eq
+
+theorem ringOdd_revRing (r : Ring K) (p : Pt K) : ringOdd (revRing r) p = ringOdd r p := by
+  simp only [ringOdd, ringEdges_revRing, List.map_reverse, xorAll_reverse, List.map_map]
+  congr 1
+  apply List.map_congr_left
+  intro e _
+  exact crosses_swap e.1 e.2 p
+
+theorem onRing_revRing (r : Ring K) (p : Pt K) : onRing (revRing r) p = onRing r p := by
+  simp only [onRing, ringEdges_revRing, List.any_reverse, List.any_map]
+  congr 1
+  funext e
+  exact onSeg_swap e.1 e.2 p
+
+theorem ringLocate_rot1 (r : Ring K) (p : Pt K) : ringLocate (rot1 r) p = ringLocate r p := by
+  simp only [ringLocate, onRing_rot1, ringOdd_rot1]
+
+theorem ringLocate_revRing (r : Ring K) (p : Pt K) : ringLocate (revRing r) p = ringLocate r p := by
+  simp only [ringLocate, onRing_revRing, ringOdd_revRing]
+
+/-- **the location of a point in a ring does not depend on the start vertex** -/
+theorem ringLocate_rotate (n : Nat) : ∀ (r : Ring K) (p : Pt K), ringLocate (r.rotate n) p = ringLocate r p := by
+  induction n with
+  | zero => intro r p; simp
+  | succ n ih =>
+    intro r p
+    rw [Nat.add_comm, ← List.rotate_rotate, ih, ← rot1_eq_rotate, ringLocate_rot1]
+
+/-- **… nor on the direction in which the ring is traversed** -/
+theorem ringLocate_reverse (r : Ring K) (p : Pt K) : ringLocate r.reverse p = ringLocate r p := by
+  rw [revRing_eq_rot1, ringLocate_rot1, ringLocate_revRing]
+
+theorem ringLocate_orientRing (c : Bool) (r : Ring K) (p : Pt K) : ringLocate (orientRing c r) p = ringLocate r p := by
+  unfold orientRing
+  split <;> split <;> simp only [ringLocate_revRing]
+
+theorem holesLocate_map (f : Ring K → Ring K) (p : Pt K) (hf : ∀ r, ringLocate (f r) p = ringLocate r p) :
+    ∀ hs : List (Ring K), holesLocate p (hs.map f) = holesLocate p hs
+  | [] => rfl
+  | h :: hs => by
+    simp only [List.map_cons, holesLocate, hf, holesLocate_map f p hf hs]
+
+/-- **membership is what it was before `__init__` re-oriented the rings** -/
+theorem polyLocate_orient (P : Polygon K) (p : Pt K) : polyLocate (polyOrient P) p = polyLocate P p := by
+  simp only [polyLocate, polyOrient, ringLocate_orientRing,
+    holesLocate_map (orientRing false) p (fun r => ringLocate_orientRing false r p)]
+
+theorem polyContains_orient (P : Polygon K) (p : Pt K) : polyContains (polyOrient P) p = polyContains P p := by
+  simp only [polyContains, polyLocate_orient]
+
+theorem ringLocate_interior_iff (r : Ring K) (p : Pt K) :
+    ringLocate r p = .interior ↔ onRing r p = false ∧ ringOdd r p = true := by
+  unfold ringLocate
+  cases onRing r p <;> cases ringOdd r p <;> simp
+
+theorem ringLocate_exterior_iff (r : Ring K) (p : Pt K) :
+    ringLocate r p = .exterior ↔ onRing r p = false ∧ ringOdd r p = false := by
+  unfold ringLocate
+  cases onRing r p <;> cases ringOdd r p <;> simp
+
+theorem ringLocate_boundary_iff (r : Ring K) (p : Pt K) : ringLocate r p = .boundary ↔ onRing r p = true := by
+  unfold ringLocate
+  cases onRing r p <;> cases ringOdd r p <;> simp
+
+theorem holesLocate_interior_iff (p : Pt K) : ∀ hs : List (Ring K),
+    holesLocate p hs = .interior ↔ ∀ h ∈ hs, ringLocate h p = .exterior
+  | [] => by simp [holesLocate]
+  | h :: hs => by
+    simp only [holesLocate, List.mem_cons, forall_eq_or_imp]
+    cases hh : ringLocate h p <;> simp [holesLocate_interior_iff p hs]
+
+theorem holesLocate_ne_exterior_iff (p : Pt K) : ∀ hs : List (Ring K),
+    holesLocate p hs = .boundary → ∃ h ∈ hs, onRing h p = true
+  | [] => by simp [holesLocate]
+  | h :: hs => by
+    intro h'
+    simp only [List.mem_cons]
+    unfold holesLocate at h'
+    split at h'
+    · exact absurd h' (by decide)
+    · rename_i hh
+      exact ⟨h, Or.inl rfl, (ringLocate_boundary_iff _ _).mp hh⟩
+    · obtain ⟨g, hg, hp⟩ := holesLocate_ne_exterior_iff p hs h'
+      exact ⟨g, Or.inr hg, hp⟩
+
+/-- **`_contains` = inside the exterior ring and outside every hole**, the rings' edges excluded -/
+theorem polyContains_iff (P : Polygon K) (p : Pt K) : polyContains P p = true ↔
+    ringLocate P.outer p = .interior ∧ ∀ h ∈ P.holes, ringLocate h p = .exterior := by
+  simp only [polyContains, polyLocate, beq_iff_eq]
+  cases ho : ringLocate P.outer p <;> simp [holesLocate_interior_iff]
+
+theorem onPolyBdry_iff (P : Polygon K) (p : Pt K) : onPolyBdry P p = true ↔
+    onRing P.outer p = true ∨ ∃ h ∈ P.holes, onRing h p = true := by
+  simp only [onPolyBdry, polyEdges, onRing, List.any_append, Bool.or_eq_true, List.any_eq_true, List.mem_flatten,
+    List.mem_map]
+  constructor
+  · rintro (h | ⟨e, ⟨l, ⟨r, hr, rfl⟩, he⟩, hp⟩)
+    · exact Or.inl h
+    · exact Or.inr ⟨r, hr, e, he, hp⟩
+  · rintro (h | ⟨r, hr, e, he, hp⟩)
+    · exact Or.inl h
+    · exact Or.inr ⟨e, ⟨_, ⟨r, hr, rfl⟩, he⟩, hp⟩
+
+/-- what GEOS reports as "on the boundary" is a point of some edge -/
+theorem polyLocate_boundary_onBdry (P : Polygon K) (p : Pt K) (h : polyLocate P p = .boundary) :
+    onPolyBdry P p = true := by
+  rw [onPolyBdry_iff]
+  simp only [polyLocate] at h
+  cases ho : ringLocate P.outer p with
+  | exterior => simp [ho] at h
+  | boundary => exact Or.inl ((ringLocate_boundary_iff _ _).mp ho)
+  | interior =>
+    simp only [ho] at h
+    exact Or.inr (holesLocate_ne_exterior_iff p P.holes h)
+
+/-- **the interior test rejects every point that lies on an edge** (Shapely's `contains` is the open interior) -/
+theorem polyContains_not_onBdry (P : Polygon K) (p : Pt K) (h : polyContains P p = true) : onPolyBdry P p = false := by
+  rw [polyContains_iff] at h
+  rw [← Bool.not_eq_true, onPolyBdry_iff]
+  rintro (h' | ⟨r, hr, h'⟩)
+  · have := (ringLocate_interior_iff _ _).mp h.1; simp [h'] at this
+  · have := (ringLocate_exterior_iff _ _).mp (h.2 r hr); simp [h'] at this
+
+/-- the closed set = interior ∪ what GEOS calls boundary -/
+theorem polyCovers_iff (P : Polygon K) (p : Pt K) :
+    polyCovers P p = true ↔ polyContains P p = true ∨ polyLocate P p = .boundary := by
+  simp only [polyCovers, polyContains]
+  cases polyLocate P p <;> simp
+
+/-! ## 4. bounding box -/
+
+theorem foldl_minK_le (f : Pt K → K) : ∀ (vs : List (Pt K)) (m : K),
+    vs.foldl (fun acc q => minK acc (f q)) m ≤ m ∧ ∀ q ∈ vs, vs.foldl (fun acc q => minK acc (f q)) m ≤ f q
+  | [], m => by simp
+  | v :: vs, m => by
+    obtain ⟨h1, h2⟩ := foldl_minK_le f vs (minK m (f v))
+    have e : minK m (f v) = min m (f v) := minK_eq_min _ _
+    simp only [List.foldl_cons, List.mem_cons, forall_eq_or_imp]
+    exact ⟨h1.trans (e.le.trans (min_le_left _ _)), h1.trans (e.le.trans (min_le_right _ _)), h2⟩
+
+theorem le_foldl_maxK (f : Pt K → K) : ∀ (vs : List (Pt K)) (m : K),
+    m ≤ vs.foldl (fun acc q => maxK acc (f q)) m ∧ ∀ q ∈ vs, f q ≤ vs.foldl (fun acc q => maxK acc (f q)) m
+  | [], m => by simp
+  | v :: vs, m => by
+    obtain ⟨h1, h2⟩ := le_foldl_maxK f vs (maxK m (f v))
+    have e : maxK m (f v) = max m (f v) := maxK_eq_max _ _
+    simp only [List.foldl_cons, List.mem_cons, forall_eq_or_imp]
+    exact ⟨((le_max_left _ _).trans e.ge).trans h1, ((le_max_right _ _).trans e.ge).trans h1, h2⟩
+
+theorem inBox_iff (b : K × K × K × K) (p : Pt K) :
+    inBox b p = true ↔ (b.1 ≤ p.1 ∧ p.1 ≤ b.2.1) ∧ (b.2.2.1 ≤ p.2 ∧ p.2 ≤ b.2.2.2) := by
+  simp only [inBox, Bool.and_eq_true, le_iff]
+
+/-- **every vertex of the exterior ring lies in `bounding_box`** -/
+theorem vertex_in_bbox (P : Polygon K) (b : K × K × K × K) (hb : polyBBox P = some b) (q : Pt K) (hq : q ∈ P.outer) :
+    inBox b q = true := by
+  unfold polyBBox at hb
+  split at hb
+  · simp at hb
+  · rename_i v vs hv
+    simp only [Option.some.injEq] at hb
+    subst hb
+    rw [hv] at hq
+    rw [inBox_iff]
+    simp only
+    obtain ⟨a1, a2⟩ := foldl_minK_le (fun q => q.1) vs v.1
+    obtain ⟨b1, b2⟩ := le_foldl_maxK (fun q => q.1) vs v.1
+    obtain ⟨c1, c2⟩ := foldl_minK_le (fun q => q.2) vs v.2
+    obtain ⟨d1, d2⟩ := le_foldl_maxK (fun q => q.2) vs v.2
+    rcases List.mem_cons.mp hq with rfl | hq
+    · exact ⟨⟨a1, b1⟩, c1, d1⟩
+    · exact ⟨⟨a2 q hq, b2 q hq⟩, c2 q hq, d2 q hq⟩
+
+theorem comb_bounds (lo hi : K) (f : Pt K → K) : ∀ (wv : List (K × Pt K)),
+    (∀ x ∈ wv, 0 ≤ x.1 ∧ lo ≤ f x.2 ∧ f x.2 ≤ hi) →
+    lo * (wv.map Prod.fst).sum ≤ (wv.map fun x => x.1 * f x.2).sum ∧
+    (wv.map fun x => x.1 * f x.2).sum ≤ hi * (wv.map Prod.fst).sum
+  | [], _ => by simp
+  | x :: wv, h => by
+    obtain ⟨h0, h1, h2⟩ := h x (List.mem_cons_self ..)
+    obtain ⟨i1, i2⟩ := comb_bounds lo hi f wv (fun y hy => h y (List.mem_cons_of_mem _ hy))
+    simp only [List.map_cons, List.sum_cons]
+    constructor
+    · nlinarith [mul_le_mul_of_nonneg_left h1 h0]
+    · nlinarith [mul_le_mul_of_nonneg_left h2 h0]
+
+/-- **every convex combination of vertices lies in `bounding_box`** (hence every point of a convex polygon) -/
+theorem convex_comb_in_bbox (P : Polygon K) (b : K × K × K × K) (hb : polyBBox P = some b)
+    (wv : List (K × Pt K)) (hv : ∀ x ∈ wv, 0 ≤ x.1 ∧ x.2 ∈ P.outer) (h1 : (wv.map Prod.fst).sum = 1) :
+    inBox b ((wv.map fun x => x.1 * x.2.1).sum, (wv.map fun x => x.1 * x.2.2).sum) = true := by
+  have hx := comb_bounds b.1 b.2.1 (fun q => q.1) wv (fun x hx => by
+    have := (inBox_iff b x.2).mp (vertex_in_bbox P b hb x.2 (hv x hx).2)
+    exact ⟨(hv x hx).1, this.1.1, this.1.2⟩)
+  have hy := comb_bounds b.2.2.1 b.2.2.2 (fun q => q.2) wv (fun x hx => by
+    have := (inBox_iff b x.2).mp (vertex_in_bbox P b hb x.2 (hv x hx).2)
+    exact ⟨(hv x hx).1, this.2.1, this.2.2⟩)
+  rw [h1, mul_one, mul_one] at hx hy
+  rw [inBox_iff]
+  exact ⟨hx, hy⟩
+
+/-- a point of a segment between two points of a box lies in the box -/
+theorem onSeg_in_box (b : K × K × K × K) (a c p : Pt K) (ha : inBox b a = true) (hc : inBox b c = true)
+    (h : onSeg a c p = true) : inBox b p = true := by
+  rw [inBox_iff] at ha hc ⊢
+  obtain ⟨_, h1, h2, h3, h4⟩ := (onSeg_iff a c p).mp h
+  exact ⟨⟨(le_min ha.1.1 hc.1.1).trans h1, h2.trans (max_le ha.1.2 hc.1.2)⟩,
+    (le_min ha.2.1 hc.2.1).trans h3, h4.trans (max_le ha.2.2 hc.2.2)⟩
+
+/-- a crossed edge: `p` is within the edge's y-range and left of its larger x -/
+theorem crosses_bounds (a b p : Pt K) (h : crosses a b p = true) :
+    min a.2 b.2 ≤ p.2 ∧ p.2 < max a.2 b.2 ∧ p.1 < max a.1 b.1 := by
+  rw [crosses_iff, orient_split] at h
+  rcases h with ⟨h1, h2, h3⟩ | ⟨h1, h2, h3⟩
+  · refine ⟨(min_le_left _ _).trans h1, lt_of_lt_of_le h2 (le_max_right _ _), ?_⟩
+    by_contra hc
+    have hc := not_lt.mp hc
+    have ha : a.1 ≤ p.1 := (le_max_left _ _).trans hc
+    have hb : b.1 ≤ p.1 := (le_max_right _ _).trans hc
+    have := mul_nonneg (sub_nonneg.mpr ha) (sub_nonneg.mpr h2.le)
+    have := mul_nonneg (sub_nonneg.mpr hb) (sub_nonneg.mpr h1)
+    nlinarith
+  · refine ⟨(min_le_right _ _).trans h1, lt_of_lt_of_le h2 (le_max_left _ _), ?_⟩
+    by_contra hc
+    have hc := not_lt.mp hc
+    have ha : a.1 ≤ p.1 := (le_max_left _ _).trans hc
+    have hb : b.1 ≤ p.1 := (le_max_right _ _).trans hc
+    have := mul_nonneg (sub_nonneg.mpr ha) (sub_nonneg.mpr h1)
+    have := mul_nonneg (sub_nonneg.mpr hb) (sub_nonneg.mpr h2.le)
+    nlinarith
+
+/-- for a point strictly left of both end points the crossing test only asks whether the edge passes the ray's level -/
+theorem crosses_of_left (a b p : Pt K) (ha : p.1 < a.1) (hb : p.1 < b.1) :
+    crosses a b p = (above p a != above p b) := by
+  rw [Bool.eq_iff_iff, crosses_iff, orient_split]
+  simp only [above, bne_iff_ne, ne_eq]
+  have pa := sub_pos.mpr ha
+  have pb := sub_pos.mpr hb
+  rcases lt_or_ge p.2 a.2 with h1 | h1 <;> rcases lt_or_ge p.2 b.2 with h2 | h2
+  · have e1 : lt p.2 a.2 = true := (lt_iff _ _).mpr h1
+    have e2 : lt p.2 b.2 = true := (lt_iff _ _).mpr h2
+    simp only [e1, e2, not_true_eq_false, iff_false]
+    rintro (⟨h, _, _⟩ | ⟨h, _, _⟩) <;> linarith
+  · have e1 : lt p.2 a.2 = true := (lt_iff _ _).mpr h1
+    have e2 : lt p.2 b.2 = false := by rw [← Bool.not_eq_true, lt_iff]; exact not_lt.mpr h2
+    simp only [e1, e2, Bool.true_eq_false, not_false_eq_true, iff_true]
+    right
+    refine ⟨h2, h1, ?_⟩
+    have := mul_nonneg pa.le (sub_nonneg.mpr h2)
+    have := mul_pos pb (sub_pos.mpr h1)
+    nlinarith
+  · have e1 : lt p.2 a.2 = false := by rw [← Bool.not_eq_true, lt_iff]; exact not_lt.mpr h1
+    have e2 : lt p.2 b.2 = true := (lt_iff _ _).mpr h2
+    simp only [e1, e2, Bool.false_eq_true, not_false_eq_true, iff_true]
+    left
+    refine ⟨h1, h2, ?_⟩
+    have := mul_pos pa (sub_pos.mpr h2)
+    have := mul_nonneg pb.le (sub_nonneg.mpr h1)
+    nlinarith
+  · have e1 : lt p.2 a.2 = false := by rw [← Bool.not_eq_true, lt_iff]; exact not_lt.mpr h1
+    have e2 : lt p.2 b.2 = false := by rw [← Bool.not_eq_true, lt_iff]; exact not_lt.mpr h2
+    simp only [e1, e2, not_true_eq_false, iff_false]
+    rintro (⟨_, h, _⟩ | ⟨_, h, _⟩) <;> linarith
+
+theorem xorAll_map_bne {α : Type} (f g : α → Bool) : ∀ l : List α,
+    xorAll (l.map fun e => f e != g e) = (xorAll (l.map f) != xorAll (l.map g))
+  | [] => rfl
+  | a :: l => by
+    have ih := xorAll_map_bne f g l
+    simp only [xorAll, List.map_cons, List.foldr_cons] at ih ⊢
+    rw [ih]
+    cases f a <;> cases g a <;> cases List.foldr xor false (List.map f l) <;>
+      cases List.foldr xor false (List.map g l) <;> rfl
+
+/-- around a closed ring a Boolean vertex label changes an even number of times -/
+theorem xor_cycle (g : Pt K → Bool) (r : Ring K) :
+    xorAll ((ringEdges r).map fun e => g e.1 != g e.2) = false := by
+  rw [xorAll_map_bne (fun e : Pt K × Pt K => g e.1) (fun e => g e.2)]
+  have h1 : (ringEdges r).map (fun e => g e.1) = r.map g := by
+    conv_rhs => rw [← ringEdges_fst r, List.map_map]
+    rfl
+  have h2 : (ringEdges r).map (fun e => g e.2) = (rot1 r).map g := by
+    rw [← ringEdges_snd, List.map_map]; rfl
+  rw [h1, h2, xorAll_perm ((rot1_perm r).map g)]
+  simp
+
+/-- a point strictly left of every vertex is crossed an even number of times -/
+theorem ringOdd_of_left (r : Ring K) (p : Pt K) (h : ∀ v ∈ r, p.1 < v.1) : ringOdd r p = false := by
+  unfold ringOdd
+  rw [List.map_congr_left (g := fun e => above p e.1 != above p e.2)]
+  · exact xor_cycle (above p) r
+  · intro e he
+    obtain ⟨h1, h2⟩ := ringEdges_mem r e he
+    exact crosses_of_left e.1 e.2 p (h _ h1) (h _ h2)
+
+theorem xorAll_true_exists : ∀ l : List Bool, xorAll l = true → true ∈ l
+  | [], h => by simp [xorAll] at h
+  | a :: l, h => by
+    cases a
+    · simp only [xorAll, List.foldr_cons, Bool.false_xor] at h
+      exact List.mem_cons_of_mem _ (xorAll_true_exists l h)
+    · exact List.mem_cons_self ..
+
+/-- **a point inside a ring (odd crossing number) lies in the bounding box of the ring's vertices** -/
+theorem ringOdd_in_box (r : Ring K) (b : K × K × K × K) (hv : ∀ q ∈ r, inBox b q = true) (p : Pt K)
+    (h : ringOdd r p = true) : inBox b p = true := by
+  have hv' := fun q hq => (inBox_iff b q).mp (hv q hq)
+  obtain ⟨e, he, hc⟩ := List.mem_map.mp (xorAll_true_exists _ h)
+  obtain ⟨h1, h2⟩ := ringEdges_mem r e he
+  obtain ⟨c1, c2, c3⟩ := crosses_bounds e.1 e.2 p hc
+  have a1 := hv' _ h1
+  have a2 := hv' _ h2
+  rw [inBox_iff]
+  refine ⟨⟨?_, ?_⟩, (le_min a1.2.1 a2.2.1).trans c1, (c2.trans_le (max_le a1.2.2 a2.2.2)).le⟩
+  · by_contra hc'
+    have hc' := not_le.mp hc'
+    have := ringOdd_of_left r p (fun v hv0 => lt_of_lt_of_le hc' (hv' v hv0).1.1)
+    rw [this] at h
+    exact Bool.false_ne_true h
+  · exact (c3.trans_le (max_le a1.1.2 a2.1.2)).le
+
+theorem onRing_in_box (r : Ring K) (b : K × K × K × K) (hv : ∀ q ∈ r, inBox b q = true) (p : Pt K)
+    (h : onRing r p = true) : inBox b p = true := by
+  simp only [onRing, List.any_eq_true] at h
+  obtain ⟨e, he, hp⟩ := h
+  obtain ⟨h1, h2⟩ := ringEdges_mem r e he
+  exact onSeg_in_box b e.1 e.2 p (hv _ h1) (hv _ h2) hp
+
+/-- **every point the membership test accepts lies in `bounding_box`** — any polygon (non-convex, with holes) -/
+theorem contains_in_bbox (P : Polygon K) (b : K × K × K × K) (hb : polyBBox P = some b) (p : Pt K)
+    (h : polyContains P p = true) : inBox b p = true := by
+  have h' := ((ringLocate_interior_iff _ _).mp ((polyContains_iff P p).mp h).1).2
+  exact ringOdd_in_box P.outer b (vertex_in_bbox P b hb) p h'
+
+/-- … and so does every point of the closed set (edges included) -/
+theorem covers_in_bbox (P : Polygon K) (b : K × K × K × K) (hb : polyBBox P = some b) (p : Pt K)
+    (h : polyCovers P p = true) : inBox b p = true := by
+  simp only [polyCovers, polyLocate, bne_iff_ne, ne_eq] at h
+  cases ho : ringLocate P.outer p with
+  | exterior => simp [ho] at h
+  | boundary => exact onRing_in_box P.outer b (vertex_in_bbox P b hb) p ((ringLocate_boundary_iff _ _).mp ho)
+  | interior => exact ringOdd_in_box P.outer b (vertex_in_bbox P b hb) p ((ringLocate_interior_iff _ _).mp ho).2
+
 end TPV.Poly
